@@ -93,6 +93,25 @@ pub fn parse(source: &str, filename: &str) -> Vec<Declaration> {
     parser::parse(tokens)
 }
 
+/// A module that is compiled BEFORE the module of a cell when PVH_PREMODULE is set: it leaves behind whatever the stages
+/// keep per module -- resolution ids 1..40 of mutable variables of every common type, parameters, pointer parameters,
+/// structure members, constants, labels -- and is itself accepted.  Nothing of it is visible in the module of the cell.
+pub const PREMODULE: &str = "struct PreS\n{\n\tm0: i32,\n\tm1: u8,\n\tm2: i64,\n}\nconst PRE_K: i32 = 5i32;\nconst PRE_N: usize = 3usize;\n\
+fn pre_g(q0: &i32, q1: []i32, q2: PreS) -> i32\n{\n\tq0 = 4i32;\n\treturn: q1[0usize] + q2.m0\n}\n\
+fn pre_f(p0: i32, p1: &i32, p2: u8, p3: bool) -> i32\n{\n\
+\tvar v0: i32 = 1i32;\n\tvar v1: u8 = 2u8;\n\tvar v2: i64 = 3i64;\n\tvar v3: bool = true;\n\tvar v4: usize = 4usize;\n\tvar v5: u16 = 5u16;\n\
+\tvar v6: i8 = 6i8;\n\tvar v7: u32 = 7u32;\n\tvar v8: u64 = 8u64;\n\tvar v9: i16 = 9i16;\n\tvar va: [3]i32 = [1i32, 2i32, 3i32];\n\
+\tvar vs: PreS = PreS { m0: 1i32, m1: 2u8, m2: 3i64 };\n\tvar vp: &i32 = &v0;\n\tvar vb: [PRE_N]u8 = [1u8, 2u8, 3u8];\n\
+\tv0 = v0 + p0;\n\tv1 = v1 + p2;\n\tv2 = v2 + 1i64;\n\tv3 = p3;\n\tv4 = v4 + 1usize;\n\tv5 = v5 + 1u16;\n\tv6 = v6 + 1i8;\n\tv7 = v7 + 1u32;\n\
+\tv8 = v8 + 1u64;\n\tv9 = v9 + 1i16;\n\tva[1usize] = 7i32;\n\tvs.m0 = 7i32;\n\tvs.m1 = 8u8;\n\tvp = 9i32;\n\tp1 = 3i32;\n\tvb[0usize] = 9u8;\n\
+\t{\n\t\tif v3 == true\n\t\t\tgoto pre_out;\n\t\tv0 = v0 + PRE_K + pre_g(&v0, va, vs);\n\t\tpre_out:\n\t}\n\treturn: v0\n}\n";
+
+/// With PVH_PREMODULE set (and no recording of hook events) every module compiled by `run_single` is the SECOND module of
+/// its compilation: PREMODULE goes through the same `Compiler` first, as `penne pre.pn case.pn` would do it.
+fn premodule_wanted(record: bool) -> bool {
+    !record && std::env::var("PVH_PREMODULE").is_ok()
+}
+
 /// Compile one module. With `record` the hook events of all stages are kept.
 pub fn run_single(source: &str, filename: &str, upto: Upto, record: bool) -> Outcome {
     let r = std::panic::catch_unwind(|| run_single_inner(source, filename, upto, record));
@@ -126,6 +145,25 @@ fn run_single_inner(source: &str, filename: &str, upto: Upto, record: bool) -> O
     }
     let declarations = scoper::analyze(declarations);
     let mut compiler = Compiler::default();
+    if premodule_wanted(record) {
+        let pre = expander::expand_one("pre.pn", parse(PREMODULE, "pre.pn"));
+        let accepted = resolver::check_surface_level_errors(&pre).is_ok() && {
+            let pre = scoper::analyze(pre);
+            compiler.add_module("pre.pn").expect("add_module");
+            match compiler.analyze_and_resolve(pre) {
+                Ok(Ok(resolved)) => {
+                    let _ = compiler.take_lints();
+                    upto != Upto::Ir || compiler.compile(&resolved).is_ok()
+                }
+                _ => false,
+            }
+        };
+        if !accepted {
+            // the premodule itself must be accepted: anything else is a defect of this harness (or of the compiler on it)
+            out.panic = Some("premodule rejected".to_string());
+            return out;
+        }
+    }
     compiler.add_module(filename).expect("add_module");
     out.stage = "resolve";
     let resolved = match compiler.analyze_and_resolve(declarations) {
